@@ -203,4 +203,29 @@ CHECKS = {
         'technique': 'exhaustive enumeration + property-based testing (Hypothesis); differential against '
                      'single-alternative graders; metamorphic order independence',
     },
+    'C01': {
+        'text': 'Hypothesis-generated grader specs for all eight grader kinds (alternatives with partial credit / '
+                'messages / pinned ok, comparers incl. partial-credit ones, attempt-based credit, debug, nested and '
+                'grouped lists) with answers, rewrites, near misses, garbage and wrong-length submissions; a '
+                'products part crossing partial-credit comparers with answer credit and attempt credit; EXHAUSTIVE '
+                'grouping vectors (2..6 inputs, contiguous compositions for 7-8). Every returned value is judged on key '
+                'set, entry count and order, grade range, message type, ok/grade consistency and debug leakage '
+                '(log markers and sentinel answers).',
+        'note': 'Raised calls are counted, not judged (C02); a pinned ok is accepted only where the statement lets it '
+                'survive; <pre> is not a leak marker (MatrixEntryComparer diagrams).',
+        'technique': 'property-based testing (Hypothesis) + exhaustive enumeration with invariant / validity-predicate '
+                     'oracles on every returned result',
+    },
+    'C02': {
+        'text': 'Hypothesis-generated grader specs (debug off) fed with out-of-domain formulas, mutated strings '
+                '(hostile tokens, up to 400-deep brackets, wrong arities, stray delimiters, non-ASCII digits/operators/'
+                'whitespace), raw unicode and non-text / wrongly nested objects; 41 anchor problems and families of '
+                'formulas broken in a known way. Oracle: result or MITxError only; debug=True twin differential for class '
+                'and <br/>-rendered message of anticipated problems vs. the generic "Could not check input(s)" error '
+                'naming the submission; ConfigError for non-text; 30 s watchdog plus elapsed-time check.',
+        'note': 'The differential is one-directional (speaks about debug off); SumGrader limits bounded to |n| <= 2000; '
+                'the optional atheris amplifier was not built - thorough runs Hypothesis only.',
+        'technique': 'property-based testing / fuzzing with Hypothesis (structured string mutators); differential '
+                     'against a debug twin; exception-family classification',
+    },
 }
